@@ -24,6 +24,7 @@ func init() {
 			ruleC13F4(r)
 			ruleC13F5(r)
 			rulePoolReset(r, "F6")
+			ruleC13F7(r)
 		},
 	})
 }
@@ -489,4 +490,55 @@ func constMakeLen(ins ssa.Instruction) (int64, bool) {
 		return 0, false
 	}
 	return arr.Len(), true
+}
+
+// ruleC13F7: a message reader wrapped in an inflater is read to its end.
+func ruleC13F7(r *Run) {
+	r.Begin("F7", "messages are read to their end: every function of the websocket transport that wraps the per-message reader in a flate reader drains that underlying reader (io.Copy to io.Discard / io.ReadAll) after the inflater is closed; the inflater stops at the end of the deflate stream and the coder/nhooyr backends refuse the next message until the previous one was read to completion", 2)
+	p := r.P
+	n := 0
+	for _, fn := range p.Funcs {
+		if fnPkgPath(fn) != modPath+"/transport/websocket" {
+			continue
+		}
+		for _, c := range findCalls(fn, false, "compress/flate.NewReader", "compress/flate.NewReaderDict") {
+			n++
+			name := fnName(fn)
+			src := canonVal(instrCall(c).Args[0])
+			if mi, ok := src.(*ssa.MakeInterface); ok {
+				src = canonVal(mi.X)
+			}
+			closes := findCalls(fn, false, "io.Closer.Close", "io.ReadCloser.Close")
+			ok := false
+			allInstrs(fn, func(ins ssa.Instruction) {
+				if !isCallNamed(ins, "io.Copy", "io.ReadAll", "io.CopyN") {
+					return
+				}
+				args := instrCall(ins).Args
+				rd := args[len(args)-1]
+				if isCallNamed(ins, "io.Copy") {
+					rd = args[1]
+					if !hasLeaf(p.Leaves(args[0], provOpts{}), "global:io.Discard") {
+						return
+					}
+				}
+				v := canonVal(rd)
+				if mi, isMI := v.(*ssa.MakeInterface); isMI {
+					v = canonVal(mi.X)
+				}
+				if v != src {
+					return
+				}
+				for _, cl := range closes {
+					if dominatesInstr(cl, ins) {
+						ok = true
+					}
+				}
+			})
+			r.Check(name+" drains the message", ok, posOf(p, c), name, "after the inflater is closed the reader it was built on must be drained to EOF")
+		}
+	}
+	if n == 0 {
+		r.Undecided("inflating decoders", "no flate reader in the websocket transport")
+	}
 }
